@@ -512,7 +512,7 @@ def manifest():
         },
         "engines": [
             {"name": "kani-inplace", "path": "/verif/kani", "serves_properties": sorted(PROPS), "kind_free_text": "Kani 0.68/CBMC: contracts attached in place on the real crates under cfg(kani); proof_for_contract, stub_verified, full-domain loop-free harnesses; concrete playback replays counterexamples natively"},
-            {"name": "verus-extract", "path": "/verif/verus", "serves_properties": sorted(p for p in PROPS if PROPS[p].get("verus")), "kind_free_text": "Verus 0.2026.09.13/z3 on functions extracted mechanically from /repo on every run (lib/verus.py, rewrites R1-R8 listed in evidence) with contract overlays from verus/units/*.rs.tpl"},
+            {"name": "verus-extract", "path": "/verif/verus", "serves_properties": sorted(p for p in PROPS if PROPS[p].get("verus")), "kind_free_text": "Verus 0.2026.09.13/z3 on functions extracted mechanically from /repo on every run (lib/verus.py, rewrites R1-R13 listed per item in the evidence) with contract overlays from verus/units/*.rs.tpl"},
         ],
         "checks": checks,
         "not_applicable": na,
